@@ -149,32 +149,44 @@ def check_independent_optional_updates(ctx, rule, v, item_suffix, fields=None):
     n = 0
     seen = set()
     for sb, t in saves:
+        # the fields of the saved value that this handler assigns: `config.f = x` statements on the loaded value, or the
+        # fields of the struct literal the saved value is rebuilt from
+        cand = set()
         for b, i, s_ in v.iter_stmts():
             F = v._named_fields(s_["lhs"]["p"])
-            if len(F) != 1 or (fields is not None and F[0] not in fields):
+            if len(F) == 1 and s_["rv"]["r"] == "use":
+                base = v.origins_of_place({"l": s_["lhs"]["l"], "p": []}, at=(b, i))
+                if any(o.kind == "load" and o.a.endswith(item_suffix) for o in base):
+                    cand.add(F[0])
+        aggs = {o.a for o in v.origins_of_operand(t["args"][2], at=v.at_term(sb)) if o.kind == "agg"}
+        for b, i, s_ in v.iter_stmts():
+            rv = s_["rv"]
+            if rv["r"] == "agg" and "adt" in rv and "%s::%s" % (rv["adt"], rv["variant"]) in aggs:
+                cand |= set(rv.get("fields") or [])
+        for fld in sorted(cand):
+            if fields is not None and fld not in fields:
                 continue
-            base = v.origins_of_place({"l": s_["lhs"]["l"], "p": []}, at=(b, i))
-            if not any(o.kind == "load" and o.a.endswith(item_suffix) for o in base):
-                continue
-            if s_["rv"]["r"] != "use":
-                continue
-            src = v.origins_of_operand(s_["rv"]["op"], at=(b, i), taint=True)
-            own = {o.a for o in src if o.kind == "param" and o.a in opt}
-            if len(own) != 1 or (F[0], b) in seen:
-                continue
-            seen.add((F[0], b))
-            own = next(iter(own))
-            cut = set()
-            for q in opt:
-                if q == own:
+            for src_ in field_sources(v, t["args"][2], (fld,), v.at_term(sb)):
+                if src_.kind != "assign" or src_.operand is None:
                     continue
-                pred = lambda os_, q=q: bool(os_) and all(o.kind == "param" and o.a == q for o in os_)
-                cut |= variant_excluded_edges(v, "option::Option", pred, "None")
-            reach = v.reachable(0, cut_edges=cut)
-            ok = b in reach and sb in v.reachable(b, cut_edges=cut)
-            n += 1
-            ctx.ob(rule, "%s|%s|updated-on-its-own" % (v.path, F[0]), ok,
-                   "with only the `%s` request field present the assignment %s reached and saved" % (F[0], "is" if ok else "is NOT"), v.where(b))
+                b = src_.block
+                src = v.origins_of_operand(src_.operand, at=(src_.block, src_.idx), taint=True)
+                own = {o.a for o in src if o.kind == "param" and o.a in opt}
+                if len(own) != 1 or (fld, b) in seen:
+                    continue
+                seen.add((fld, b))
+                own = next(iter(own))
+                cut = set()
+                for q in opt:
+                    if q == own:
+                        continue
+                    pred = lambda os_, q=q: bool(os_) and all(o.kind == "param" and o.a == q for o in os_)
+                    cut |= variant_excluded_edges(v, "option::Option", pred, "None")
+                reach = v.reachable(0, cut_edges=cut)
+                ok = b in reach and sb in v.reachable(b, cut_edges=cut)
+                n += 1
+                ctx.ob(rule, "%s|%s|updated-on-its-own" % (v.path, fld), ok,
+                       "with only the `%s` request field present the assignment %s reached and saved" % (fld, "is" if ok else "is NOT"), v.where(b))
     return n
 
 
